@@ -254,7 +254,9 @@ func c02clientState(scfg, en, state int) (*Client, *vcConn) {
 	nd.Assert(err == nil && c.caps != nil, "client-rejects-the-server-greeting")
 	vc.in, vc.pos = nil, 0
 	if state > 0 {
+		// (the prologue of the server run selects "sel")
 		c.state = imap.ConnStateSelected
+		c.mailbox = &SelectedMailbox{Name: "sel", NumMessages: 3}
 	}
 	switch en {
 	case 1:
